@@ -207,6 +207,8 @@ pub async fn scenario(line: &str) -> String {
     "peerclose" => peerclose(&p).await,
     "bystander" => bystander(&p).await,
     "subhist" => subhist(&p).await,
+    "routerframes" => routerframes(&p).await,
+    "errclose" => errclose(&p).await,
     "routerlate" => routerlate(&p).await,
     "retrypace" => retrypace(&p).await,
     "chanleak" => chanleak(&p).await,
@@ -2841,6 +2843,179 @@ async fn routerlate(p: &[&str]) -> String {
   let _ = tokio::time::timeout(Duration::from_secs(3), router.close()).await;
   let _ = tokio::time::timeout(Duration::from_secs(12), ctx.term()).await;
   "routerlate=ok".into()
+}
+
+/// `errclose <cfg> <bytes> [idle]`
+/// A raw TCP peer connects to a listening rzmq socket, sends `bytes` (a stream that ends in a protocol violation) and
+/// then only reads: the library has to close the connection (the peer sees end-of-stream or a reset) within 3 s.
+/// With `idle`: the bytes are a VALID handshake and the peer then stays silent although the socket has heartbeats
+/// configured (`hbivl`/`hbto` in cfg): it must see at least one PING and then the close.
+async fn errclose(p: &[&str]) -> String {
+  let cfg = parse_kv(p[1]);
+  let data = parse_bytes(p[2]);
+  let idle = p.get(3).map(|x| *x == "idle").unwrap_or(false);
+  let ctx = Context::new().expect("ctx");
+  let sock = match make_socket(&ctx, &cfg).await {
+    Ok(s) => s,
+    Err(e) => return format!("setup-error {}", err_class(&e)),
+  };
+  if sock.bind("tcp://127.0.0.1:0").await.is_err() {
+    return "setup-error bind".into();
+  }
+  let ep = last_endpoint(&sock).await;
+  let mut verdict = "setup-error connect".to_string();
+  if let Ok(mut stream) = TcpStream::connect(ep.trim_start_matches("tcp://")).await {
+    let _ = stream.set_nodelay(true);
+    tokio::time::sleep(Duration::from_millis(20)).await;
+    let _ = stream.write_all(&data).await;
+    let limit = if idle { Duration::from_secs(6) } else { Duration::from_secs(3) };
+    // `appclose`: the application closes the socket 300 ms after the (valid) handshake bytes were sent
+    if p.get(3).map(|x| *x == "appclose").unwrap_or(false) {
+      tokio::time::sleep(Duration::from_millis(300)).await;
+      let _ = tokio::time::timeout(Duration::from_secs(3), sock.close()).await;
+    }
+    let t0 = Instant::now();
+    let mut buf = vec![0u8; 4096];
+    let mut seen: Vec<u8> = Vec::new();
+    let mut closed = false;
+    while t0.elapsed() < limit {
+      match tokio::time::timeout(Duration::from_millis(200), stream.read(&mut buf)).await {
+        Ok(Ok(0)) | Ok(Err(_)) => {
+          closed = true;
+          break;
+        }
+        Ok(Ok(n)) => seen.extend_from_slice(&buf[..n]),
+        Err(_) => {}
+      }
+    }
+    let pinged = seen.windows(5).any(|w| w == b"\x04PING");
+    verdict = if !closed {
+      format!(
+        "ORACLE-FAIL key=error-does-not-close {} ms after {} the connection is still open",
+        t0.elapsed().as_millis(),
+        if idle { "the peer fell silent (heartbeats configured)" } else { "a protocol violation" }
+      )
+    } else if idle && !pinged {
+      "ORACLE-FAIL key=no-ping the connection was closed but the silent peer never saw a PING".into()
+    } else {
+      "errclose=closed".into()
+    };
+  }
+  let _ = tokio::time::timeout(Duration::from_secs(3), sock.close()).await;
+  let _ = tokio::time::timeout(Duration::from_secs(12), ctx.term()).await;
+  verdict
+}
+
+/// `routerframes <tcp|inproc> <rounds> <what the other peer does: close|connect|none>`
+/// A ROUTER sends a three-frame message to peer `A` FRAME BY FRAME with send(); in the middle of it ANOTHER peer `B` of the
+/// same ROUTER disconnects (or a new one connects). The rest of the frames follow, then a second message with
+/// send_multipart(). `A` must receive exactly the two messages, whole and separate.
+async fn routerframes(p: &[&str]) -> String {
+  let transport = p[1];
+  let rounds: usize = p[2].parse().unwrap();
+  let what = p[3];
+  let ctx = Context::new().expect("ctx");
+  let router = ctx.socket(SocketType::Router).unwrap();
+  let _ = set_i32(&router, o::ROUTER_MANDATORY, 1).await;
+  let _ = set_i32(&router, o::SNDTIMEO, 1000).await;
+  let ep = if transport == "tcp" { "tcp://127.0.0.1:0".to_string() } else { format!("inproc://{}", unique_name("routerframes")) };
+  if router.bind(&ep).await.is_err() {
+    return "setup-error bind".into();
+  }
+  let target = if transport == "tcp" { last_endpoint(&router).await } else { ep.clone() };
+  let a = ctx.socket(SocketType::Dealer).unwrap();
+  let _ = a.set_option_raw(o::ROUTING_ID, b"A").await;
+  let _ = set_i32(&a, o::RCVTIMEO, 600).await;
+  if a.connect(&target).await.is_err() {
+    return "setup-error connect".into();
+  }
+  tokio::time::sleep(Duration::from_millis(150)).await;
+  let frame = |tag: &str, more: bool| {
+    let mut m = Msg::from_vec(tag.as_bytes().to_vec());
+    if more {
+      m.set_flags(rzmq::MsgFlags::MORE);
+    }
+    m
+  };
+  for round in 0..rounds {
+    let b = ctx.socket(SocketType::Dealer).unwrap();
+    let _ = b.set_option_raw(o::ROUTING_ID, format!("B{}", round).as_bytes()).await;
+    if what == "close" {
+      let _ = b.connect(&target).await;
+      tokio::time::sleep(Duration::from_millis(120)).await;
+    }
+    // first half of the message to A (retry the identity frame until A is known to the ROUTER)
+    let mut started = false;
+    for _ in 0..40 {
+      match router.send(frame("A", true)).await {
+        Ok(()) => {
+          started = true;
+          break;
+        }
+        Err(_) => tokio::time::sleep(Duration::from_millis(25)).await,
+      }
+    }
+    if !started {
+      return format!("setup-error round {} peer A unknown", round);
+    }
+    if let Err(e) = router.send(frame(&format!("r{}-f1", round), true)).await {
+      return format!("ORACLE-FAIL key=routerframes-send round {}: frame 1 refused: {}", round, err_class(&e));
+    }
+    // the other peer
+    match what {
+      "close" => {
+        let _ = tokio::time::timeout(Duration::from_secs(3), b.close()).await;
+        tokio::time::sleep(Duration::from_millis(120)).await;
+      }
+      "connect" => {
+        let _ = b.connect(&target).await;
+        tokio::time::sleep(Duration::from_millis(120)).await;
+      }
+      _ => {}
+    }
+    // second half
+    for (tag, more) in [(format!("r{}-f2", round), true), (format!("r{}-f3", round), false)] {
+      if let Err(e) = router.send(frame(&tag, more)).await {
+        return format!(
+          "ORACLE-FAIL key=routerframes-send round {}: after another peer did `{}` in the middle of a frame-by-frame message, frame {} is refused: {}",
+          round,
+          what,
+          tag,
+          err_class(&e)
+        );
+      }
+    }
+    if let Err(e) = router.send_multipart(vec![frame("A", true), frame(&format!("r{}-m2a", round), true), frame(&format!("r{}-m2b", round), false)]).await {
+      return format!("ORACLE-FAIL key=routerframes-send round {}: the next message is refused: {}", round, err_class(&e));
+    }
+    let want = vec![
+      vec![format!("r{}-f1", round), format!("r{}-f2", round), format!("r{}-f3", round)],
+      vec![format!("r{}-m2a", round), format!("r{}-m2b", round)],
+    ];
+    for w in want {
+      match a.recv_multipart().await {
+        Ok(fr) => {
+          let got: Vec<String> = fr.iter().map(|f| String::from_utf8_lossy(f.data().unwrap_or(&[])).to_string()).collect();
+          if got != w {
+            return format!(
+              "ORACLE-FAIL key=routerframes-torn round {}: another peer did `{}` while a message was being sent frame by frame; A received {:?} where {:?} was sent",
+              round, what, got, w
+            );
+          }
+        }
+        Err(e) => {
+          return format!("ORACLE-FAIL key=routerframes-lost round {}: after `{}` by another peer, {:?} never arrived ({})", round, what, w, err_class(&e))
+        }
+      }
+    }
+    if what != "close" {
+      let _ = tokio::time::timeout(Duration::from_secs(3), b.close()).await;
+    }
+  }
+  let _ = tokio::time::timeout(Duration::from_secs(3), a.close()).await;
+  let _ = tokio::time::timeout(Duration::from_secs(3), router.close()).await;
+  let _ = tokio::time::timeout(Duration::from_secs(12), ctx.term()).await;
+  "routerframes=ok".into()
 }
 
 /// `subhist <tcp|inproc> <history> <probe topics>`
